@@ -17,15 +17,14 @@ impl<T> Atomic<T> {
         #[cfg(flurry_verif)]
         {
             use crate::verif::{self, Cell, Kind};
-            let mut op = verif::op(
+            let op = verif::guarded_op(
                 Kind::Load,
                 Cell::Ptr,
                 self as *const _ as usize,
                 ordering,
                 None,
+                guard as *const Guard<'_> as usize,
             );
-            op.protected = true;
-            op.guard = guard as *const Guard<'_> as usize;
             let r: Shared<'g, T> = guard.protect(&self.0, ordering).into();
             verif::hooks().after_op(&op, r.ptr as usize, None);
             return r;
